@@ -43,8 +43,23 @@ def generate(rng, tier):
         el["T"] = rng.choice([1, 2, 4])
         el["B"] = rng.choice([4, 8, 16])
     be = W.gen_backend(rng, ant, el)
+    # SCALE: production-sized blocks - one sub-block of more than 2**22 real samples, the block not a whole multiple of
+    # any round size (caps and chunking inside a block only engage there, and their remainder handling)
+    heavy = rng.random() < (0.01 if tier == "quick" else 0.05)
+    if heavy:
+        for _ in range(8):
+            if ant["n_ant"] * ant["pols"] <= 1:
+                break
+            ant = W.gen_antenna(rng)
+        el["T"], el["B"] = 4, 64
+        be = W.gen_backend(rng, ant, el)
+        be["num_chans"], be["start_chan"] = rng.choice([1, 2, 3]), rng.choice([0, 5])
+        be["W"] = rng.choice([24576, 24580, 30001, 40985])
+        be["spb"] = be["W"] * el["T"]
+        be["block_size"] = be["spb"] * ant["n_ant"] * be["num_chans"] * (2 * ant["pols"] * el["bits"] // 8)
+        be["num_subblocks"] = rng.choice([1, 1, 2])
     ops = []
-    for _ in range(rng.choice([1, 1, 2, 3])):
+    for _ in range(rng.choice([1, 1, 2, 3]) if not heavy else 1):
         op = {"op": "record", "digitize": rng.random() < 0.5, "template": False}
         if rng.random() < 0.45:
             op["num_blocks"] = rng.choice([1, 2, 3, 5, 6])
@@ -52,14 +67,17 @@ def generate(rng, tier):
             k = rng.choice([0, 1, 1, 2, 3, 4, 5])
             op["dur"] = {"k": k, "mode": rng.choice(["exact", "exact", "half", "below", "above", "frac"]),
                          "frac": rng.random()}
-        if rng.random() < 0.12:
+        if heavy:
+            op.pop("dur", None)
+            op["num_blocks"] = rng.choice([1, 2])
+        elif rng.random() < 0.12:
             op["fault"] = rng.choice([{"kind": "enospc", "at": rng.randint(1, 40)}, {"kind": "source", "at": rng.randint(1, 5)},
                                       {"kind": "interrupt", "at": rng.randint(1, 300)}])
         if ops and rng.random() < 0.3:
             op["set_subblocks"] = rng.randint(1, be["W"] + 2)
         ops.append(op)
     onto = None
-    if rng.random() < 0.3:
+    if rng.random() < 0.3 and not heavy:
         # a second backend built with from_data on the first recording: requests may exceed what the input holds,
         # in which case "only as much data as is in the input" is recorded and the accounting is about those blocks
         ops2 = []
